@@ -1,5 +1,7 @@
 import GbVerif.Proofs.BusWf
 import GbVerif.Gen.HeaderTables
+import GbVerif.Proofs.SysTotal
+import GbVerif.Proofs.BusIo
 /-!
 C11 — no guest-controlled bus access can crash the emulator.
 
@@ -120,6 +122,93 @@ theorem no_crash (typeCode romCode ramCode k : Nat) (hk : Gen.HeaderTables.cartK
       = .ok s' ∧ WF s' :=
   have _ := hk
   wf_reachable ops (wf_create _ _ _ rom (header_rom_banks romCode)) hv
+
+/-! ### the passage of time as the real machine composes it
+
+`Op.clock` above is the OAM-DMA copy alone.  `MemoryAreas::run_clock_cycles` also runs the timer (a checked `u32`
+addition), the LCD loop (`cycles_remaining -= 4` on a `usize`) and the joypad, byte by byte while a DMA is active
+(`Sys.dev`, the device function the c09 / c04 / c10 streams tie to the code).  None of that can panic either. -/
+
+open GbVerif.SysProofs in
+/-- the invariant of the whole-machine histories: buffer sizes, and the timer counter in its 16 bits -/
+def SysOk (s : State) : Prop := WF s ∧ TimerOk s
+
+open GbVerif.SysProofs in
+theorem sysOk_create (k : Cart.Kind) (romBanks ramBytes : Nat) (rom : Nat → Nat) (h : 2 ≤ romBanks) :
+    SysOk (create k romBanks ramBytes rom) := ⟨wf_create k romBanks ramBytes rom h, by show (0 : Nat) < 65536; decide⟩
+
+open GbVerif.SysProofs in
+/-- a completed bus write keeps the invariant (a DIV write clears the counter, nothing else assigns it) -/
+theorem sysOk_write {s s' : State} {a v : Nat} (ok : SysOk s) (ha : a < 65536) (h : write s a v = .ok s') : SysOk s' := by
+  refine ⟨BusProofs.wf_write ok.1 h, ?_⟩
+  rcases BusProofs.write_io_cases ok.1 ha h with e | e | e
+  · show s'.io.timer.cycleCount < 65536; rw [e]; exact ok.2
+  · show s'.io.timer.cycleCount < 65536; rw [e]; exact ok.2
+  · show s'.io.timer.cycleCount < 65536; rw [e]; exact setByte_timerOk _ _ _ ok.2
+
+/-- what the guest and the clock can do to the whole machine -/
+inductive SysOp where
+  | read (a : Nat)
+  | write (a v : Nat)
+  | readWord (a : Nat)
+  | writeWord (a v : Nat)
+  | time (clocks : Nat)      -- `MemoryAreas::run_clock_cycles(clocks)`: DMA, timer, LCD, joypad
+
+/-- addresses are `u16`; the core hands over whole machine cycles, far below 2^32 clocks per step -/
+def SysOp.valid : SysOp → Prop
+  | .read a => a < 65536
+  | .write a _ => a < 65536
+  | .readWord a => a < 65536
+  | .writeWord a _ => a < 65536
+  | .time k => k % 4 = 0 ∧ k < 2 ^ 32 - 65536
+
+def sysStep (s : State) : SysOp → Except Panic State
+  | .read a => do let _ ← read s a; pure s
+  | .write a v => write s a v
+  | .readWord a => do let _ ← readWord s a; pure s
+  | .writeWord a v => writeWord s a v
+  | .time k => Sys.dev s k
+
+def sysRun (s : State) : List SysOp → Except Panic State
+  | [] => .ok s
+  | op :: ops => do let s ← sysStep s op; sysRun s ops
+
+open GbVerif.SysProofs in
+theorem sysStep_total {s : State} (ok : SysOk s) (op : SysOp) (hv : op.valid) : ∃ s', sysStep s op = .ok s' ∧ SysOk s' := by
+  cases op with
+  | read a => obtain ⟨v, h⟩ := BusProofs.read_total ok.1 (a := a) hv; exact ⟨s, by simp only [sysStep, h]; rfl, ok⟩
+  | write a v =>
+    obtain ⟨s', h, _⟩ := write_total v ok.1 hv
+    exact ⟨s', h, sysOk_write ok hv h⟩
+  | readWord a => obtain ⟨v, h⟩ := BusProofs.readWord_total ok.1 (a := a) hv; exact ⟨s, by simp only [sysStep, h]; rfl, ok⟩
+  | writeWord a v =>
+    -- two byte writes
+    obtain ⟨s1, h1, _⟩ := write_total (v &&& 0xff) ok.1 hv
+    have ok1 := sysOk_write ok hv h1
+    have ha2 : (a + 1) % 65536 < 65536 := Nat.mod_lt _ (by decide)
+    obtain ⟨s2, h2, _⟩ := write_total (v >>> 8) ok1.1 ha2
+    exact ⟨s2, by simp only [sysStep]; unfold writeWord; rw [h1]; exact h2, sysOk_write ok1 ha2 h2⟩
+  | time k =>
+    obtain ⟨s', h, wf', ht'⟩ := dev_total ok.1 ok.2 hv.1 hv.2
+    exact ⟨s', h, wf', ht'⟩
+
+/-- no history of bus accesses and time panics, and the invariant holds after it -/
+theorem sys_reachable : ∀ (ops : List SysOp) {s : State}, SysOk s → (∀ op ∈ ops, op.valid) →
+    ∃ s', sysRun s ops = .ok s' ∧ SysOk s'
+  | [], s, ok, _ => ⟨s, rfl, ok⟩
+  | op :: ops, s, ok, hv => by
+    obtain ⟨s1, h1, ok1⟩ := sysStep_total ok op (hv op List.mem_cons_self)
+    obtain ⟨s2, h2, ok2⟩ := sys_reachable ops ok1 (fun o ho => hv o (List.mem_cons_of_mem _ ho))
+    exact ⟨s2, by simp only [sysRun, h1]; exact h2, ok2⟩
+
+/-- **C11 with time**: for every cartridge the loader accepts and every history of byte/word accesses interleaved with
+the passage of any amounts of time through the real device composition, nothing panics -/
+theorem no_crash_sys (typeCode romCode ramCode k : Nat) (hk : Gen.HeaderTables.cartKind typeCode = some k)
+    (rom : Nat → Nat) (ops : List SysOp) (hv : ∀ op ∈ ops, op.valid) :
+    ∃ s', sysRun (create (kindOfCode k) (Gen.HeaderTables.romBanks romCode) (Gen.HeaderTables.ramBytes ramCode) rom) ops
+      = .ok s' ∧ SysOk s' :=
+  have _ := hk
+  sys_reachable ops (sysOk_create _ _ _ rom (header_rom_banks romCode)) hv
 
 /-! ### non-vacuity -/
 
